@@ -41,6 +41,26 @@ static void forcing_case(Toks& tk, Out& out, std::size_t ncells, std::size_t nsp
     out.tok("ORACLE_INPUT_MODIFIED");
   if (!oracle_forcing(m, ncells, nspec, nrxn, rc, y, f, [&](std::size_t c, std::size_t s) { return (double)F[c][s]; }))
     out.tok("ORACLE_FORCING_NOT_MASS_ACTION");
+  // grid cells are independent: every cell computed alone (a one-cell matrix of the same type) gives the same bits
+  if (ncells > 1)
+  {
+    bool same = true;
+    for (std::size_t c = 0; c < ncells && same; ++c)
+    {
+      std::vector<long long> rc1(rc.begin() + c * nrxn, rc.begin() + (c + 1) * nrxn);
+      std::vector<long long> y1(y.begin() + c * nspec, y.begin() + (c + 1) * nspec);
+      std::vector<long long> f1(f.begin() + c * nspec, f.begin() + (c + 1) * nspec);
+      M RC1 = to_matrix<M>(1, nrxn, pad, rc1);
+      M Y1 = to_matrix<M>(1, nspec, pad, y1);
+      M F1 = to_matrix<M>(1, nspec, pad, f1);
+      ps->AddForcingTerms(RC1, Y1, F1);
+      for (std::size_t s = 0; s < nspec; ++s)
+        if ((double)F1[0][s] != (double)F[c][s])
+          same = false;
+    }
+    if (!same)
+      out.tok("ORACLE_CELL_DEPENDS_ON_OTHER_CELLS");
+  }
 }
 
 static void fam_forcing(Toks& tk, Out& out)
@@ -178,6 +198,37 @@ static void jacobian_case(Toks& tk, Out& out, std::size_t ncells, std::size_t ns
   }
   if (!ok)
     out.tok("ORACLE_JACOBIAN_NOT_DERIVATIVE");
+  // grid cells are independent: every cell computed alone in a one-block matrix of the same pattern gives the same bits
+  if (ncells > 1)
+  {
+    bool same = true;
+    auto builder = SM::Create(nspec).SetNumberOfBlocks(1);
+    for (std::size_t i = 0; i < nspec; ++i)
+      for (std::size_t j = 0; j < nspec; ++j)
+        if (!jac.IsZero(i, j))
+          builder = builder.WithElement(i, j);
+    micm::ProcessSet ps1(m.processes, m.vmap);
+    for (std::size_t c = 0; c < ncells && same; ++c)
+    {
+      SM j1(builder);
+      ps1.SetJacobianFlatIds(j1);
+      for (std::size_t i = 0; i < nspec; ++i)
+        for (std::size_t j = 0; j < nspec; ++j)
+          if (!jac.IsZero(i, j))
+            j1[0][i][j] = jac0[c][i][j];
+      std::vector<long long> rc1(rc.begin() + c * nrxn, rc.begin() + (c + 1) * nrxn);
+      std::vector<long long> y1(y.begin() + c * nspec, y.begin() + (c + 1) * nspec);
+      M RC1 = to_matrix<M>(1, nrxn, pad, rc1);
+      M Y1 = to_matrix<M>(1, nspec, pad, y1);
+      ps1.SubtractJacobianTerms(RC1, Y1, j1);
+      for (std::size_t i = 0; i < nspec; ++i)
+        for (std::size_t j = 0; j < nspec; ++j)
+          if (!jac.IsZero(i, j) && j1[0][i][j] != jac[c][i][j])
+            same = false;
+    }
+    if (!same)
+      out.tok("ORACLE_CELL_DEPENDS_ON_OTHER_CELLS");
+  }
 }
 
 static void fam_jacobian(Toks& tk, Out& out)
